@@ -4,7 +4,7 @@
 From Coq Require Import List NArith ZArith QArith Qcanon.
 From Coq Require Extraction.
 From Coq Require Import ExtrOcamlBasic.
-From BSpl Require Import Scalar Outcome Support Poly Spline Ops Forms Generator Interp Solver Pool Instances.
+From BSpl Require Import Scalar Outcome Support Poly Spline Ops Forms Generator Interp Solver Pool Instances Instances_Ext.
 
 Definition qstep : state Qc -> op Qc -> state Qc * outcome (obs Qc) :=
   @step Qc QcOps (@gauss_solve Qc QcOps).
@@ -12,4 +12,8 @@ Definition mk_qc (n : Z) (d : positive) : Qc := qc n d.
 Definition qc_num (x : Qc) : Z := Qnum (this x).
 Definition qc_den (x : Qc) : positive := Qden (this x).
 
-Extraction "model.ml" qstep mk_qc qc_num qc_den.
+(* validation entry points at the IEEE comparison structure (NaN, +-inf) *)
+Definition xgrid_ctor (l : list ext) : outcome (list ext) := @grid_ctor ext ExtOps l.
+Definition xgen_ctor1 (l : list ext) : outcome (@generator ext) := @gen_ctor1 ext ExtOps l.
+
+Extraction "model.ml" qstep mk_qc qc_num qc_den xgrid_ctor xgen_ctor1.
